@@ -1,8 +1,16 @@
+//go:build verif
+
 // c06 drives the hot-parameter CONCURRENCY rules of the real code (core/hotspot) through the
 // public API: hotspot.LoadRules + api.Entry(WithArgs / WithAttachments) + entry.Exit, entries for
 // different values and resources opened, nested and exited in any order, interleaved with entries
 // on resources without a rule that carry other arguments (pooled-option reuse).
 // After every operation it records what Input.Args of EVERY live entry reads.
+// Concurrent admission (ops chk / rec / recall): a request is started on its own goroutine under the
+// cooperative gate (hx.Sched) and parked at the yield point "chain.checked" of the slot chain, i.e.
+// after the rule checks took the decision and before the statistic slots record the entry; other
+// entries are opened, exited and probed from the main goroutine in between; "rec" lets the parked
+// caller finish and records what api.Entry returned.  The schedules come from TLC (HotParamConc with
+// K >= 1: Check / Record / Exit as separate actions).
 // The recorded trace is validated against spec/HotParamConc_Trace.tla.
 //
 // usage: c06 <scenarios.ndjson> <trace.ndjson>
@@ -32,10 +40,66 @@ type liveEntry struct {
 	e  *base.SentinelEntry
 }
 
+// a caller parked between the rule check and the statistic slot
+type parked struct {
+	proc *hx.Proc
+	e    *base.SentinelEntry
+	b    *base.BlockError
+	p    bool
+}
+
 type run struct {
-	tr   int64
-	tab  *hpx.Table
-	live map[int64]*base.SentinelEntry
+	tr    int64
+	tab   *hpx.Table
+	live  map[int64]*base.SentinelEntry
+	sched *hx.Sched
+	pend  map[int64]*parked
+}
+
+// release the parked caller id: it runs through the statistic slots, api.Entry returns; the outcome is recorded
+func (r *run) record(tr *hx.Trace, id int64) {
+	pk := r.pend[id]
+	if pk == nil {
+		hx.Fatal("trace %d: rec of caller %d which is not parked", r.tr, id)
+	}
+	r.sched.Finish(pk.proc)
+	delete(r.pend, id)
+	rec := hx.M{"op": "rec", "id": id, "ok": pk.e != nil && pk.b == nil, "tv": 0}
+	if pk.p {
+		rec["panic"], rec["ok"] = true, false
+	} else if pk.b != nil {
+		rec["tv"] = tvOf(pk.b)
+	} else {
+		r.live[id] = pk.e
+	}
+	rec["live"] = r.liveObs()
+	tr.Emit(rec)
+}
+
+func (r *run) pendIDs() []int64 {
+	ids := make([]int64, 0, len(r.pend))
+	for id := range r.pend {
+		ids = append(ids, id)
+	}
+	sort.Slice(ids, func(i, j int) bool { return ids[i] < ids[j] })
+	return ids
+}
+
+// end of a trace: nobody stays parked, nothing stays live, the gate is removed
+func (r *run) close() {
+	for _, id := range r.pendIDs() {
+		pk := r.pend[id]
+		r.sched.Finish(pk.proc)
+		if pk.e != nil {
+			pk.e.Exit()
+		}
+	}
+	for _, e := range r.live {
+		e.Exit()
+	}
+	if r.sched != nil {
+		r.sched.Close()
+	}
 }
 
 func (r *run) res(name string) string { return fmt.Sprintf("c06_%d_%s", r.tr, name) }
@@ -126,9 +190,7 @@ func main() {
 		switch op {
 		case "new":
 			if r != nil {
-				for _, e := range r.live {
-					e.Exit()
-				}
+				r.close()
 			}
 			_ = hotspot.ClearRules()
 			stat.ResetResourceNodeMap()
@@ -139,7 +201,7 @@ func main() {
 			if e, _ := api.Entry("c06_warmup", api.WithArgs(0, 0, 0, 0, 0, 0, 0, 0)); e != nil {
 				e.Exit()
 			}
-			r = &run{tr: hx.Int(s, "tr"), tab: hpx.NewTable(hx.Str(s, "ty")), live: map[int64]*base.SentinelEntry{}}
+			r = &run{tr: hx.Int(s, "tr"), tab: hpx.NewTable(hx.Str(s, "ty")), live: map[int64]*base.SentinelEntry{}, pend: map[int64]*parked{}}
 			rules := []*hotspot.Rule{}
 			rm, _ := s["rules"].(map[string]interface{})
 			names := make([]string, 0, len(rm))
@@ -175,6 +237,30 @@ func main() {
 			}
 			rec["live"] = r.liveObs()
 			tr.Emit(rec)
+		case "chk":
+			// a caller on its own goroutine runs api.Entry up to the point between rule checks and statistic slots
+			id := hx.Int(s, "id")
+			if r.sched == nil {
+				r.sched = hx.NewSched()
+				r.sched.Filter = func(p string) bool { return p == "chain.checked" }
+			}
+			pk := &parked{}
+			res, o := r.res(hx.Str(s, "res")), opts(r.tab, s)
+			pk.proc = r.sched.Spawn(func() { pk.e, pk.b, pk.p = entry(res, o) })
+			point := r.sched.Step(pk.proc)
+			r.pend[id] = pk
+			tr.Emit(hx.M{"op": "chk", "id": id, "res": s["res"], "args": args, "atts": atts, "point": point, "live": r.liveObs()})
+		case "rec":
+			r.record(tr, hx.Int(s, "id"))
+		case "recall":
+			// quiescence of the admission path: every parked caller finishes (oldest first, or newest first)
+			ids := r.pendIDs()
+			if hx.Str(s, "order") == "lifo" {
+				sort.Slice(ids, func(i, j int) bool { return ids[i] > ids[j] })
+			}
+			for _, id := range ids {
+				r.record(tr, id)
+			}
 		case "exit":
 			id := hx.Int(s, "id")
 			e := r.live[id]
@@ -226,6 +312,9 @@ func main() {
 		default:
 			hx.Fatal("unknown op %q", op)
 		}
+	}
+	if r != nil {
+		r.close()
 	}
 }
 
